@@ -426,9 +426,9 @@ inductive Op
 /-- `QMI_Transport.open` + `_open_transport` of the three classes.  `_is_open` is set only after
 `_open_transport` returned; every failure leaves the flag `False`.
 * TCP: buffer reset, `socket()`, `connect`; `socket.timeout` → socket closed, `QMI_TimeoutException`; any
-  other `OSError` passes through and the socket object is left as it is (not closed).
-* UDP: buffer reset, `gethostbyname` (may raise before any socket exists), `socket()`, `bind` (an `OSError`
-  passes through, socket not closed).
+  other `OSError` → socket closed, the error passes through (fix f965cdf).
+* UDP: buffer reset, `gethostbyname` (may raise before any socket exists), `socket()`, `bind`; an `OSError`
+  of `bind` → socket closed, the error passes through (fix 08e4670).
 * serial: `serial.Serial(...)` (a `SerialException` passes through, nothing created); buffer kept. -/
 def doOpen (s : St) : St × Out :=
   if s.isOpen then (s, .exc .invalidOp)
@@ -445,13 +445,13 @@ def doOpen (s : St) : St × Out :=
       match r with
       | .ok => ({ s1 with isOpen := true }, .unit)
       | .timeout => ({ s1 with io := s1.io ++ [Io.cl] }, .exc .timeout)
-      | _ => (s1, .exc .osError)
+      | _ => ({ s1 with io := s1.io ++ [Io.cl] }, .exc .osError)
     | .udp =>
       let s1 := { s0 with buf := [], log := s0.log ++ [(Tag.disc, s0.buf)], io := s0.io ++ [Io.gh] }
       match r with
       | .early => (s1, .exc .osError)
       | .ok => ({ s1 with isOpen := true, io := s1.io ++ [Io.mk, Io.bd] }, .unit)
-      | _ => ({ s1 with io := s1.io ++ [Io.mk, Io.bd] }, .exc .osError)
+      | _ => ({ s1 with io := s1.io ++ [Io.mk, Io.bd, Io.cl] }, .exc .osError)
 
 /-- `write(data)` of the three classes: refused when closed, otherwise the whole `data` goes to the
 device in one call (`sendall` / one datagram / `Serial.write`) -/
